@@ -227,7 +227,7 @@ M('loop-once-no-poll-send', ['C08'], F, """        while not self.mq.send(frames
 """, """        while not self.mq.send(frames, min(POLL_TIMEOUT_MS, outputs_timeout)):
 """, ['C08.R4'])
 M('loop-once-deadline-conditional', ['C08'], F, "        if (exit_after_t := self.exit_after_t) is not None and time.time() >= exit_after_t:\n            self.exit('exit_after')", "        if frames and (exit_after_t := self.exit_after_t) is not None and time.time() >= exit_after_t:\n            self.exit('exit_after')", ['C08.R4'])
-M('loop-once-deadline-flipped', ['C08'], F, "is not None and time.time() >= exit_after_t:", "is not None and time.time() <= exit_after_t:", ['C08.R4'])
+M('loop-once-deadline-flipped', ['C08'], F, "        if (exit_after_t := self.exit_after_t) is not None and time.time() >= exit_after_t:", "        if (exit_after_t := self.exit_after_t) is not None and time.time() <= exit_after_t:", ['C08.R4'])
 M('time-module-called', ['C08'], F, "            self.exit_after_t = time.time() + exit_after", "            self.exit_after_t = time() + exit_after", ['C08.R5'])
 M('mq-destroy-skips-metrics-sender', ['C08'], MQ, "        if self.metrics_sender:\n            self.metrics_sender.destroy()\n            self.metrics_sender = None", "        if self.metrics_sender:\n            self.metrics_sender = None", ['C08.R6'])
 M('receiver-destroy-no-sub-close', ['C08'], Z, "            sender.sub.close()\n\n            if sender.ephemeral < 2:", "            if sender.ephemeral < 2:", ['C08.R6'])
@@ -676,7 +676,7 @@ M('deadline-relative-stored-as-absolute', ['C08'], F, "            self.exit_aft
 M('deadline-at-form-keeps-the-at', ['C08'], F, "parse_date_and_or_time(exit_after[1:], LOG_UTC)).timestamp()", "parse_date_and_or_time(exit_after, LOG_UTC)).timestamp()", ['C08.R8'])
 M('interval-weights-minutes-hours-swapped', ['C08'], UTL, "zip([24*60*60, 60*60, 60, 1]", "zip([24*60*60, 60, 60*60, 1]", ['C08.R8'])
 M('interval-left-aligned', ['C08'], UTL, "parts = ('0:0:0:' + text).split(':')[-4:]", "parts = (text + ':0:0:0').split(':')[:4]", ['C08.R8'])
-M('deadline-compared-inverted', ['C08'], F, "time.time() >= exit_after_t:", "time.time() <= exit_after_t:", ['C08.R8', 'C08.R4'])
+M('deadline-compared-inverted', ['C08'], F, "        if (exit_after_t := self.exit_after_t) is not None and time.time() >= exit_after_t:\n            self.exit('exit_after')", "        if (exit_after_t := self.exit_after_t) is not None and exit_after_t >= time.time():\n            self.exit('exit_after')", ['C08.R8', 'C08.R4'])
 
 M('emit-disabled-test-inverted', ['C18'], LN, "if not os.getenv(\"OPENLINEAGE_DISABLED\", \"false\").lower() in (\"true\", \"1\"):", "if os.getenv(\"OPENLINEAGE_DISABLED\", \"false\").lower() in (\"true\", \"1\"):", ['C18.R7'])
 M('payload-dict-of-none', ['C18'], LN, "data_to_use = dict(raw_data or {})", "data_to_use = dict(raw_data)", ['C18.R7'])
@@ -693,3 +693,5 @@ M('cli-chain-sink-presence-inverted', ['C12'], CLI, '''        if last_source an
 
 M('cli-D46-shape-wildcard-prefix-test', ['C12'], CLI, '''"localhost" if addr in ("*", "0", "0.0.0.0") else addr''', '''"localhost" if addr[:1] in "*0" else addr''', ['C12.R7'])
 M('cli-D45-shape-sources-not-reserved', ['C12'], CLI, '''        for source in split_commas_maybe(config.sources) or ():''', '''        for source in ():''', ['C12.R12'])
+
+M('loop-D50-shape-error-handler-skips-deadline', ['C08'], F, "                                    if (exit_after_t := filter.exit_after_t) is not None and time.time() >= exit_after_t:  # loop_once() did not get as far as its own test of the deadline\n                                        filter.exit('exit_after')\n", "", ['C08.R4'])
